@@ -1,4 +1,5 @@
 import Pamqp.Spec.Defs
+import Pamqp.Proofs.RoundTrip
 /-!
 # C03 — field tables and arrays round-trip with value and type preserved
 Property theorems only; helper lemmas live in `Pamqp/Proofs/`.
@@ -12,21 +13,22 @@ the normalised value. No bound on nesting depth; both integer ladders. -/
 theorem C03_value_roundtrip (legacy : Bool) (v : PyVal) (h : Spec.Encodable legacy v) (rest : Bytes) :
     ∃ bs, Encode.tableValue legacy v = .ok bs ∧ bs.length = Spec.wireSize legacy v ∧
       Decode.embeddedValue (bs ++ rest) = .ok (bs.length, Spec.norm v) := by
-  sorry
+  exact Proofs.RoundTrip.value_roundtrip legacy v h rest
 
 /-- the same through `encode.field_table` / `decode.field_table` -/
 theorem C03_table_roundtrip (legacy : Bool) (kvs : List (Str × PyVal))
     (h : Spec.Encodable legacy (.dict kvs)) (rest : Bytes) :
     ∃ bs, Encode.fieldTable legacy (.dict kvs) = .ok bs ∧
       Decode.fieldTableTop (bs ++ rest) = .ok (bs.length, Spec.norm (.dict kvs)) := by
-  sorry
+  obtain ⟨bs, h1, _, h2⟩ := Proofs.RoundTrip.table_roundtrip legacy kvs h rest
+  exact ⟨bs, h1, h2⟩
 
 /-- the same through `encode.field_array` / `decode.field_array` -/
 theorem C03_array_roundtrip (legacy : Bool) (vs : List PyVal)
     (h : Spec.Encodable legacy (.list vs)) (rest : Bytes) :
     ∃ bs, Encode.fieldArray legacy (.list vs) = .ok bs ∧
       Decode.fieldArrayTop (bs ++ rest) = .ok (bs.length, Spec.norm (.list vs)) := by
-  sorry
+  exact Proofs.RoundTrip.array_roundtrip legacy vs h rest
 
 /-- the Python type is preserved: bool never becomes int, etc. -/
 def sameType : PyVal → PyVal → Prop
@@ -38,7 +40,7 @@ def sameType : PyVal → PyVal → Prop
 
 theorem C03_type_preserved (legacy : Bool) (v : PyVal) (h : Spec.Encodable legacy v) :
     sameType v (Spec.norm v) := by
-  sorry
+  cases v <;> first | exact h.elim | (simp only [Spec.norm, Spec.normDecimal]; try split) <;> trivial
 
 /-- integers (incl. negative ones) and booleans come back exactly -/
 theorem C03_int_bool_exact (i : Int) (b : Bool) :
@@ -47,13 +49,13 @@ theorem C03_int_bool_exact (i : Int) (b : Bool) :
 /-- dict key sets are preserved -/
 theorem C03_keys_preserved (kvs : List (Str × PyVal)) :
     ∃ kvs', Spec.norm (.dict kvs) = .dict kvs' ∧ (kvs'.map (·.1)).Perm (kvs.map (·.1)) := by
-  sorry
+  exact Proofs.RoundTrip.keys_preserved kvs
 
 /-- decimals keep their numeric value: the rebuilt decimal has the same unscaled value and scale -/
 theorem C03_decimal_value (n : Bool) (c : Nat) (e : Int) :
     ∃ n' c' e', Spec.norm (.decimal n c e) = .decimal n' c' e' ∧
       (if e < 0 then c' = c ∧ e' = e else c' = c * 10 ^ e.toNat ∧ e' = 0) ∧ (n' = (n && c != 0)) := by
-  sorry
+  exact Proofs.RoundTrip.decimal_value n c e
 
 /-- the hypotheses are satisfiable by a non-trivial nested value -/
 example : Spec.Encodable false
